@@ -144,6 +144,26 @@ impl Scope for RotBucket {
     }
 }
 
+
+/// Directory contents of a rotating bucket whose newest populated directory is `newest` (1..=999)
+/// and whose `p` populated directories form one contiguous run ending there.
+fn build_vols(site: &str, newest: usize, p: usize, t0: i64, spacing: i64, rng: &mut Rng) -> std::collections::BTreeMap<usize, Vec<Obj>> {
+    let mut vols = std::collections::BTreeMap::new();
+    for j in 0..p {
+        let v = (newest + 999 - 1 - j) % 999 + 1; // going backwards from the newest, 1..=999
+        let when = t0 - (j as i64) * spacing - if spacing >= 300_000 { rng.below(200_000) as i64 } else { 0 };
+        let c = crate::cal::civil_from_epoch_ms(when);
+        let name = format!("{:04}{:02}{:02}-{:02}{:02}{:02}-001-S", c.year, c.month, c.day, c.hour, c.minute, c.second);
+        let mut objs = vec![Obj { key: format!("{}/{}/{}", site, v, name), last_modified: s3sim::rfc3339(when, spacing < 1_000 || j % 2 == 0), size: "1234".into() }];
+        // later chunks of the same volume (must not be the one consulted: max-keys=1 returns the first)
+        if j % 3 == 0 {
+            objs.push(Obj { key: format!("{}/{}/{}", site, v, name.replace("-001-S", "-002-I")), last_modified: s3sim::rfc3339(when + 5_000_000_000, false), size: "99".into() });
+        }
+        vols.insert(v, objs);
+    }
+    vols
+}
+
 fn check_bucket(obs: &mut Obs, newest: usize, p: usize, rng: &mut Rng, label: &str) {
     let sim = s3sim::global();
     let site = s3sim::fresh_site();
@@ -159,25 +179,13 @@ fn check_bucket(obs: &mut Obs, newest: usize, p: usize, rng: &mut Rng, label: &s
     if t0 > now_ms {
         obs.count("buckets_stamped_ahead_of_the_wall_clock", 1);
     }
-    let mut vols = std::collections::BTreeMap::new();
     // spacing between consecutive directories' first chunks: minutes as in production, or down to
     // a millisecond (upload times are only required to be distinct)
     let spacing: i64 = *rng.pick(&[300_000i64, 300_000, 1_000, 400, 1]);
     if spacing < 1_000 {
         obs.count("buckets_with_sub_second_spacing", 1);
     }
-    for j in 0..p {
-        let v = (newest + 999 - 1 - j) % 999 + 1; // going backwards from the newest, 1..=999
-        let when = t0 - (j as i64) * spacing - if spacing >= 300_000 { rng.below(200_000) as i64 } else { 0 };
-        let c = crate::cal::civil_from_epoch_ms(when);
-        let name = format!("{:04}{:02}{:02}-{:02}{:02}{:02}-001-S", c.year, c.month, c.day, c.hour, c.minute, c.second);
-        let mut objs = vec![Obj { key: format!("{}/{}/{}", site, v, name), last_modified: s3sim::rfc3339(when, spacing < 1_000 || j % 2 == 0), size: "1234".into() }];
-        // later chunks of the same volume (must not be the one consulted: max-keys=1 returns the first)
-        if j % 3 == 0 {
-            objs.push(Obj { key: format!("{}/{}/{}", site, v, name.replace("-001-S", "-002-I")), last_modified: s3sim::rfc3339(when + 5_000_000_000, false), size: "99".into() });
-        }
-        vols.insert(v, objs);
-    }
+    let vols = build_vols(&site, newest, p, t0, spacing, rng);
     let scope = Arc::new(Mutex::new(RotBucket { site: site.clone(), vols, log: Vec::new() }));
     sim.register(&site, scope.clone());
     obs.case(mix(mix(151, newest as u64), p as u64));
@@ -228,23 +236,23 @@ fn check_bucket(obs: &mut Obs, newest: usize, p: usize, rng: &mut Rng, label: &s
             }
             obs.max("list_requests_per_discovery", lists as u64);
             obs.count("list_requests_logged", lists as u64);
-            for (raw, _) in &log {
+            // Request shape is recorded, not judged: the statement speaks of the directory found and
+            // of the number of listing requests, not of their parameters.  The simulator implements
+            // S3's plain string-prefix and max-keys semantics, so a request that asks for the wrong
+            // thing shows up as a wrong directory or a wrong count above.
+            let canonical = log.iter().all(|(raw, _)| {
                 let rq = s3sim::parse_url(raw, 0);
                 let prefix = rq.q("prefix").unwrap_or("");
                 let parts: Vec<&str> = prefix.split('/').collect();
-                let vol_ok = parts.len() == 3
+                parts.len() == 3
                     && parts[0] == site
                     && parts[2].is_empty()
-                    && parts[1].parse::<usize>().map(|v| (1..=999).contains(&v)).unwrap_or(false);
-                if rq.q("max-keys") != Some("1") || !vol_ok || rq.q("list-type") != Some("2") || rq.bucket != s3sim::REALTIME_BUCKET {
-                    obs.violation(
-                        "discovery issues a request other than LIST SITE/<1..=999>/ with max-keys=1",
-                        raw.clone(),
-                        replay.clone(),
-                    );
-                    break;
-                }
-            }
+                    && parts[1].parse::<usize>().map(|v| (1..=999).contains(&v)).unwrap_or(false)
+                    && rq.q("max-keys") == Some("1")
+                    && rq.q("list-type") == Some("2")
+                    && rq.bucket == s3sim::REALTIME_BUCKET
+            });
+            obs.count(if canonical { "discoveries_with_canonical_list_requests" } else { "discoveries_with_other_list_request_shapes" }, 1);
             if obs.want_sample() {
                 obs.sample(json!({"part": "get_latest_volume", "newest_volume": newest, "populated": p, "reported_calls": res.calls,
                     "first_requests": log.iter().take(3).map(|l| l.0.clone()).collect::<Vec<_>>()}));
@@ -253,9 +261,96 @@ fn check_bucket(obs: &mut Obs, newest: usize, p: usize, rng: &mut Rng, label: &s
     }
 }
 
+/// One site asked repeatedly while its bucket moves on (a client that restarts polling, or asks
+/// again later): every answer must be right for the bucket as it is *then*.  State carried from
+/// an earlier discovery must not leak into a later one.
+fn check_history(obs: &mut Obs, rng: &mut Rng, index: u64) {
+    let sim = s3sim::global();
+    let site = s3sim::fresh_site();
+    let steps = rng.urange(3, 6);
+    // a walk of (newest, populated): forwards by small and large strides, through 999 and the wrap
+    let mut states: Vec<(usize, usize)> = Vec::new();
+    let mut newest = match index % 4 {
+        0 => 999,
+        1 => rng.urange(990, 998),
+        _ => rng.urange(1, 999),
+    };
+    let mut p = *rng.pick(&[999usize, 999, 40, 1, 500]);
+    for _ in 0..steps {
+        states.push((newest, p));
+        let stride = *rng.pick(&[1usize, 1, 2, 7, 55, 400]);
+        newest = (newest - 1 + stride) % 999 + 1;
+        p = (p + stride).min(999);
+        if rng.chance(1, 8) {
+            p = 0; // the bucket was emptied (and is asked again)
+        }
+    }
+    let scope = Arc::new(Mutex::new(RotBucket { site: site.clone(), vols: Default::default(), log: Vec::new() }));
+    sim.register(&site, scope.clone());
+    let mut t0: i64 = 1_722_000_000_000 + rng.below(1_000_000_000) as i64;
+    for (k, (newest, p)) in states.iter().copied().enumerate() {
+        t0 += 400 * 300_000;
+        let vols = build_vols(&site, newest, p, t0, 300_000, rng);
+        if let Ok(mut g) = scope.lock() {
+            g.vols = vols;
+            g.log.clear();
+        }
+        obs.case(mix(mix(152, newest as u64), mix(p as u64, k as u64)));
+        let replay = json!({"part": "get_latest_volume history", "scenario_index": index, "step": k, "states_so_far": states[..=k].to_vec()});
+        let r = mon::catch(|| s3sim::block_on(false, get_latest_volume(&site)));
+        let log_len = scope.lock().map(|g| g.log.len()).unwrap_or(0);
+        match r {
+            Err(pn) => {
+                obs.violation(format!("get_latest_volume {}", pn.signature()), pn.message, replay);
+                break;
+            }
+            Ok(Err(e)) => {
+                if let nexrad_data::result::Error::AWS(nexrad_data::result::aws::AWSError::S3ListObjectsError(re)) = &e {
+                    if re.is_connect() {
+                        obs.inconclusive(format!("loopback connect to the simulator failed: {re}"));
+                        break;
+                    }
+                }
+                obs.violation("get_latest_volume fails against a well-formed bucket", format!("{e:?}"), replay);
+                break;
+            }
+            Ok(Ok(res)) => {
+                let want = if p == 0 { None } else { Some(newest) };
+                let got = res.volume.map(|v| v.as_number());
+                if got != want {
+                    obs.violation(
+                        "latest volume is not the newest populated directory when the same site is asked again later",
+                        format!("step {} of {:?}: expected {:?}, observed {:?}", k, &states[..=k], want, got),
+                        replay,
+                    );
+                    break;
+                }
+                if res.calls != log_len {
+                    obs.violation(
+                        "reported call count differs from the listing requests issued",
+                        format!("step {}: reported {}, simulator logged {}", k, res.calls, log_len),
+                        replay,
+                    );
+                    break;
+                }
+                if log_len > call_bound(999) {
+                    obs.violation(
+                        "listing requests exceed the directory count by more than a logarithmic term",
+                        format!("step {}: {} requests, bound {}", k, log_len, call_bound(999)),
+                        replay,
+                    );
+                    break;
+                }
+                obs.count("repeated_discoveries_on_one_site_checked", 1);
+            }
+        }
+    }
+    sim.unregister(&site);
+}
+
 pub fn run(ctx: &mut Ctx) {
-    ctx.rule = "(a) one case per bucket shape (size n, newest index k, populated count p; distinct upload times, newest largest) run through the real rotated search with a counting probe closure; (b) one case per simulated 999-directory bucket run through get_latest_volume over HTTP; \
-distinct = distinct (n, k, p); oracle = result is the newest populated directory (None when empty), probe/list count <= n + 3*ceil(log2(n+1)) + 4, probed indices < n, reported calls == LIST requests logged, every LIST has max-keys=1 and prefix SITE/<1..=999>/"
+    ctx.rule = "(a) one case per bucket shape (size n, newest index k, populated count p; distinct upload times, newest largest) run through the real rotated search with a counting probe closure; (b) one case per simulated 999-directory bucket run through get_latest_volume over HTTP, plus sites asked 3..6 times while their bucket moves on (through 999 and the wrap, emptied in between); \
+distinct = distinct (n, k, p); oracle = result is the newest populated directory (None when empty), probe/list count <= n + 3*ceil(log2(n+1)) + 4, probed indices < n, reported calls == LIST requests logged (request parameters are recorded, not judged)"
         .into();
     ctx.exhaustive = Some("(a) all n^2+1 shapes for every n in 1..=64 and all 998,002 shapes at n = 999; (b) the 36 corner shapes newest in {1,2,500,997,998,999} x populated in {0,1,2,55,998,999}".into());
     ctx.assumptions = vec!["populated directories form one contiguous run ending at the newest (rotation order), upload times distinct".into()];
@@ -317,7 +412,7 @@ distinct = distinct (n, k, p); oracle = result is the newest populated directory
         }
     }
     let mut rng = Rng::derive(seed, 15, 1 << 40);
-    for _ in 0..ctx.tier.pick(24, 8_000) {
+    for _ in 0..ctx.tier.pick(120, 8_000) {
         let nw = rng.urange(1, 999);
         let p = match rng.below(5) {
             0 => rng.urange(1, 10),
@@ -331,6 +426,12 @@ distinct = distinct (n, k, p); oracle = result is the newest populated directory
         let mut rng = Rng::derive(seed, 15, (1 << 41) + i);
         let (nw, p, label) = shapes_ref[i as usize];
         check_bucket(obs, nw, p, &mut rng, label);
+    });
+    // ---- (b') the same site asked again while its bucket moves on ------------------------------------------
+    let n_hist = ctx.tier.pick(24u64, 1_500u64);
+    par_cases(ctx, n_hist, |i, obs| {
+        let mut rng = Rng::derive(seed, 15, (1 << 42) + i);
+        check_history(obs, &mut rng, i);
     });
     ctx.obs.sample(json!({"part": "search", "n": 2, "newest_index": 0, "populated": 2, "values": [1000000, 999999], "expected": 0}));
 }
